@@ -8,7 +8,7 @@ From Coq Require Import String.
 From PV Require Import Base.Bytes Base.Outcome Base.Prim Base.Enum Spec.PrimSpec
   Model.C07Kinds Model.C07Lists Model.C07Session Model.C07Inst Gen.C07Tables Spec.C07Lists Spec.C07Sections
   Proofs.C07V4 Proofs.C07V5 Proofs.C07Tables Proofs.C07Units Proofs.C07Top Proofs.C07Enum
-  Proofs.C07Classify Proofs.C07Session.
+  Proofs.C07Classify Proofs.C07Session Proofs.C07Tails.
 From Coq Require Import ZArith List Bool.
 Import ListNotations.
 Open Scope string_scope.
@@ -160,6 +160,70 @@ Theorem C07_range_enumeration_exact : forall T S version stream cus refs (ex : l
   iter_range_lists T S version stream cus = Ok (enum_expected (map fst refs) ex).
 Proof. exact iter_range_lists_exact. Qed.
 Print Assumptions C07_range_enumeration_exact.
+
+(* ================================================================== lists that share a tail
+   an offset (attribute value or offset-table slot) may designate the first byte of the k-th entry of
+   an encoded list: fetching there returns that entry and the following ones, each with its own
+   offset and length, i.e. the tail of the host list's entries *)
+Theorem C07_v5_loc_tail_sharing : forall S version a b pre tail cu tbl,
+  5 <= version -> addr_table_at S cu tbl -> forallb (wf_lle (s_asz S) (zlen tbl)) (a ++ b) = true ->
+  get_location_list_at_offset LLE_TABLES S version
+    (pre ++ enc_lle_list (s_le S) (s_asz S) (a ++ b) ++ tail)
+    (zlen pre + zlen (concat (map (enc_lle (s_le S) (s_asz S)) a))) (Some cu)
+  = Ok (skipn (length a) (lle_meaning (s_le S) (s_asz S) tbl (zlen pre) (a ++ b))).
+Proof. exact v5_loc_tail_sharing. Qed.
+Print Assumptions C07_v5_loc_tail_sharing.
+
+Theorem C07_v5_rng_tail_sharing : forall S version a b pre tail cu tbl,
+  5 <= version -> addr_table_at S cu tbl -> forallb (wf_rle (s_asz S) (zlen tbl)) (a ++ b) = true ->
+  get_range_list_at_offset RLE_TABLES S version
+    (pre ++ enc_rle_list (s_le S) (s_asz S) (a ++ b) ++ tail)
+    (zlen pre + zlen (concat (map (enc_rle (s_le S) (s_asz S)) a))) (Some cu)
+  = Ok (skipn (length a) (rle_meaning (s_le S) (s_asz S) tbl (zlen pre) (a ++ b))).
+Proof. exact v5_rng_tail_sharing. Qed.
+Print Assumptions C07_v5_rng_tail_sharing.
+
+Theorem C07_v4_loc_tail_sharing : forall S version a b pre tail cu,
+  version < 5 -> (0 < s_asz S)%nat -> forallb (wf_v4loc (s_asz S)) (a ++ b) = true ->
+  get_location_list_at_offset LLE_TABLES S version
+    (pre ++ enc_v4loc_list (s_le S) (s_asz S) (a ++ b) ++ tail)
+    (zlen pre + zlen (concat (map (enc_v4loc (s_le S) (s_asz S)) a))) cu
+  = Ok (skipn (length a) (v4loc_meaning (s_le S) (s_asz S) (zlen pre) (a ++ b))).
+Proof. exact v4_loc_tail_sharing. Qed.
+Print Assumptions C07_v4_loc_tail_sharing.
+
+Theorem C07_v4_rng_tail_sharing : forall S version a b pre tail cu,
+  version < 5 -> (0 < s_asz S)%nat -> forallb (wf_v4rng (s_asz S)) (a ++ b) = true ->
+  get_range_list_at_offset RLE_TABLES S version
+    (pre ++ enc_v4rng_list (s_le S) (s_asz S) (a ++ b) ++ tail)
+    (zlen pre + zlen (concat (map (enc_v4rng (s_le S) (s_asz S)) a))) cu
+  = Ok (skipn (length a) (v4rng_meaning (s_le S) (s_asz S) (zlen pre) (a ++ b))).
+Proof. exact v4_rng_tail_sharing. Qed.
+Print Assumptions C07_v4_rng_tail_sharing.
+
+(* the enumeration demanded with tail sharing (Spec/C07Sections.v enum_designated: every designated list
+   once, in offset order) is the one of C07_range_enumeration_exact when every designated offset is the
+   first byte of an item; C07_range_enumeration_exact itself covers tail sharing (its [ex] may list
+   the designated tails as items of their own) *)
+Theorem C07_enum_designated_items : forall refs (ex : list ex_item),
+  incr (map ex_start ex) -> (forall o, In o refs -> In o (map ex_start ex)) ->
+  enum_designated refs ex = enum_expected refs ex.
+Proof. exact enum_designated_items. Qed.
+Print Assumptions C07_enum_designated_items.
+
+(* known finding loclists-tail-at-unit-end: the v5 walk of iter_location_lists leaves a unit block
+   when the stream reaches its end, so a designated tail of the block's LAST list is fetched correctly
+   but not visited by the enumeration (the model mirrors the code) *)
+Theorem C07_loclists_tail_at_unit_end_refuted :
+  get_location_list_at_offset LLE_TABLES tail_S 5 tail_loclists 17 (Some (cuinfo_of (hd (Build_cuview 0 false 0 []) tail_cus)))
+    = Ok (lle_meaning true 4 [] 17 [LBaseAddress 0x1000])
+  /\ enum_designated [12; 17] tail_items
+     = [lle_meaning true 4 [] 12 [LOffsetPair (1, 0%nat) (2, 0%nat) (0%nat, [0x50]); LBaseAddress 0x1000];
+        lle_meaning true 4 [] 17 [LBaseAddress 0x1000]]
+  /\ iter_location_lists LLE_TABLES gen_loclists_CU_header gen_locview_pair tail_S 5 tail_loclists tail_cus
+     = Ok [lle_meaning true 4 [] 12 [LOffsetPair (1, 0%nat) (2, 0%nat) (0%nat, [0x50]); LBaseAddress 0x1000]].
+Proof. exact tail_at_unit_end. Qed.
+Print Assumptions C07_loclists_tail_at_unit_end_refuted.
 
 (* ================================================================== any call order (Model/C07Session.v)
    The objects DWARFInfo.location_lists()/range_lists() hand out share one stream per section with the
